@@ -307,6 +307,7 @@ class Interp(object):
         self.mtimes = None            # path -> modification time, for os.path.getmtime
         self.import_overrides = {}    # (module, name) -> value bound by a function-level import
         self.files = None             # path -> text, for open(path).read()
+        self.position_order = None    # (path a, delta), (path b, delta) -> -1/0/1/None: textual order of two symbolic nodes
         self.fs_dirs = None           # directory -> listing, for os.listdir
         self.memoise_cached = False
         self.nodevisitor_model = False
@@ -1154,6 +1155,13 @@ class Interp(object):
             return {ast.Lt: a < b, ast.LtE: a <= b, ast.Gt: a > b, ast.GtE: a >= b}[type(op)]
         if _has_sym(a) or _has_sym(b):
             if isinstance(a, (SymPos, SymPosMix, tuple, int)) and isinstance(b, (SymPos, SymPosMix, tuple, int)):
+                wa, wb = _whole_position(a), _whole_position(b)
+                if wa is not None and wb is not None and self.position_order is not None:
+                    # two complete token positions: their lexicographic order is the textual order of the two nodes
+                    self.effect('position-compare-whole', wa[0], wb[0])
+                    c = self.position_order(wa, wb)
+                    if c is not None:
+                        return {ast.Lt: c < 0, ast.LtE: c <= 0, ast.Gt: c > 0, ast.GtE: c >= 0}[type(op)]
                 self.effect('position-compare', repr(a), repr(b))
                 return self.decide(('pos-cmp', repr(a), repr(b)))
         if isinstance(a, Obj) and isinstance(op, ast.Lt) and a.cls.lookup('__lt__') is not None:
@@ -1623,6 +1631,14 @@ def _load(t):
             continue
         x.lineno = getattr(t, 'lineno', 0)
     return n
+
+
+def _whole_position(v):
+    """(path, column delta) when v is (line of node, column of the same node + delta), else None"""
+    if isinstance(v, tuple) and len(v) == 2 and all(isinstance(x, SymPos) for x in v) and v[0].path == v[1].path \
+            and (v[0].part, v[1].part) == ('line', 'col') and v[0].delta == 0:
+        return (v[0].path, v[1].delta)
+    return None
 
 
 def _has_sym(v):
